@@ -31,6 +31,8 @@ type RulesFile struct {
 	Rules   []Rule   `json:"rules"`
 	CRLF    bool     `json:"crlf,omitempty"`
 	FinalNL bool     `json:"final_nl"`
+	// TrailBlank: number of empty lines after the last rule (only with FinalNL)
+	TrailBlank int `json:"trail_blank,omitempty"`
 }
 
 // Span locates an operand inside the rendered file.
@@ -98,6 +100,8 @@ func (f *RulesFile) Render() (string, map[string]Span) {
 	s := sb.String()
 	if !f.FinalNL {
 		s = strings.TrimSuffix(s, eol)
+	} else {
+		s += strings.Repeat(eol, f.TrailBlank)
 	}
 	return s, spans
 }
@@ -132,6 +136,8 @@ func GenRulesFile(t *rapid.T, o RulesOpt) *RulesFile {
 	}
 	if o.NoFinalNL && rapid.IntRange(0, 4).Draw(t, "nofinal") == 0 {
 		f.FinalNL = false
+	} else if o.NoFinalNL && rapid.IntRange(0, 3).Draw(t, "trailblank") == 0 {
+		f.TrailBlank = rapid.IntRange(1, 3).Draw(t, "ntrailblank")
 	}
 	f.Header = []string{
 		"# ------------------------------------------------------------------------",
